@@ -172,7 +172,7 @@ fn pass<F: FnOnce(&mut vh::VShell, &mut Vec<(String, String)>)>(spec: &str, toks
 
 /// streams that may hang or abort are run in a forked child under a watchdog
 fn isolated(stream: &str) -> bool {
-    matches!(stream, "xenv" | "xall" | "plan" | "subst" | "xrange" | "head")
+    matches!(stream, "xenv" | "xall" | "plan" | "subst" | "xrange" | "head" | "plan1")
 }
 
 fn run_isolated(stream: &str, f: &[&str], timeout_ms: i32) -> String {
@@ -371,6 +371,23 @@ fn run_case(stream: &str, f: &[&str]) -> String {
             }
             Err(e) => format!("err|{}", hex(&e)),
         }),
+        "plan1" => with_env(f[0], |sh| {
+            let items = vh::line_to_cmds(&unhex(f[1]));
+            if items.is_empty() {
+                return "empty".to_string();
+            }
+            match vh::from_line(&items[0], sh) {
+                Ok(p) => {
+                    let cmds = if p.commands.is_empty() { "[]".to_string() } else { p.commands.iter().map(cmd_out).collect::<Vec<_>>().join(";") };
+                    format!("ok|{}|{}|{}", if p.background { 1 } else { 0 }, pairs_out(&p.envs), cmds)
+                }
+                Err(e) => format!("err|{}", hex(&e)),
+            }
+        }),
+        "globq" => match vh::glob_query(&unhex(f[0])) {
+            Some(v) => if v.is_empty() { "[]".to_string() } else { v.iter().map(|x| hex(x)).collect::<Vec<_>>().join("/") },
+            None => "!".to_string(),
+        },
         "head" => with_env(f[0], |sh| {
             let line = unhex(f[1]);
             match vh::run_pipeline_captured(sh, &line) {
@@ -399,6 +416,9 @@ fn main() {
     let mut out = BufWriter::new(File::create(&args[2]).expect("out file"));
     panic::set_hook(Box::new(|_| {}));
     // deterministic process environment: every variable a case needs is set by the case itself
+    if let Ok(d) = std::env::var("CVH_CWD") {
+        std::env::set_current_dir(&d).expect("CVH_CWD");
+    }
     let keys: Vec<String> = std::env::vars().map(|(k, _)| k).collect();
     let progress = std::env::var("CVH_PROGRESS").ok();
     for k in keys {
